@@ -14,7 +14,8 @@ def coSlot (w : World) (delay : Int) : Nat := slotOf (coDue w delay).toNat
 def coRot (w : World) (delay : Int) : Int := 1 + Int.tdiv (coDue w delay - (coCot w : Int) - 1) (N : Int)
 def coCall (w : World) (owner fn : Nat) (tag : String) (delay : Int) (fp : Bool) : Call :=
   { serial := w.unique + 1, owner := owner, fn := fn, tag := tag,
-    handle := coSlot w delay + N * (w.unique + 1), due := coDue w delay, fp := fp }
+    handle := coSlot w delay + N * (w.unique + 1), due := coDue w delay, fp := fp,
+    giver := liveGiver w w.giver }
 
 theorem newCallOut_fst (w : World) (o f : Nat) (tag : String) (delay : Int) (fp : Bool) :
     (newCallOut w o f tag delay fp).1 =
@@ -178,7 +179,8 @@ theorem fireOne_ok {w : World} (h : WheelInv w) (sc : Scripts) (cop : Entry) : S
   · split
     · exact (StepOK.refl h).congr rfl rfl rfl rfl
     · exact StepOK.refl h
-  · have h1 : WheelInv (emit w (.fire (vnow w) cop.c.owner cop.c.fn cop.c.tag)) := h.congr rfl rfl rfl rfl
+  · have h1 : WheelInv (emit { w with giver := liveGiver w cop.c.giver }
+        (.fire (vnow w) cop.c.owner cop.c.fn cop.c.tag (liveGiver w cop.c.giver))) := h.congr rfl rfl rfl rfl
     have := runOps_ok h1 cop.c.owner (sc cop.c.owner cop.c.tag)
     exact ⟨this.inv, this.cot, this.now, this.zc, this.uniq⟩
 
